@@ -47,6 +47,17 @@ def configs(tier, seed):
             else:
                 ops.append(["add_again"])
         cfgs.append({"aw": aw, "dw": dw, "g": g, "ops": ops})
+    # the same scope value at two nesting levels (an array of clusters each holding an array of registers)
+    for dw, g in ((8, 8), (32, 8)):
+        ops = []
+        for i in (0, 1):
+            ops += [["index", i], ["cluster", "ch"]]
+            for j in (0, 1):
+                ops += [["index", j], ["add", "ctrl", dw, None], ["pop"]]
+            ops += [["add", "status", dw, None], ["pop"], ["pop"]]
+        cfgs.append({"aw": 6, "dw": dw, "g": g, "ops": ops})
+        cfgs.append({"aw": 6, "dw": dw, "g": g, "ops": [["cluster", "a"], ["cluster", "b"], ["cluster", "a"], ["add", "x", dw, None], ["pop"],
+                                                         ["add", "y", dw, None], ["pop"], ["add", "z", dw, None], ["pop"], ["add", "w", dw, None]]})
     # directed edge cases (independent of the random stream): layouts at the very end of the address space whose RAW size fits
     # but whose power-of-two ROUNDED size does not; an explicit offset inside a previous register; back-to-back odd sizes
     for aw in (2, 3, 4, 6):
